@@ -89,13 +89,24 @@ func runC13(res *lib.Result, tier string, seed int64, args []string) error {
 			params  string
 			vararg  bool
 			markers []string
+			use     string // how the name is written at the use site (members: T.name)
 		}
+		var detached []string // markers of comments separated from every declaration by a blank line
 		marker := 0
 		mark := func() string { marker++; return fmt.Sprintf(" zq%dz", marker) }
-		var lines []string
+		lines := []string{"local T = {}", "GT = {}", ""}
 		var decls []decl
 		add := func(kind int) {
 			name := fmt.Sprintf("v%d", len(decls)+1)
+			if r.Chance(1, 4) {
+				// a comment that is not attached to anything: one or two blank lines follow it
+				dm := mark()
+				detached = append(detached, dm)
+				lines = append(lines, "-- "+pick()+dm, "")
+				if r.Chance(1, 3) {
+					lines = append(lines, "")
+				}
+			}
 			m1 := mark()
 			c1 := pick() + m1
 			comment := c1
@@ -115,9 +126,24 @@ func runC13(res *lib.Result, tier string, seed int64, args []string) error {
 					lines = append(lines, "-- "+c1)
 				}
 			}
-			d := decl{line: len(lines), name: name, comment: comment, markers: markers}
+			d := decl{line: len(lines), name: name, comment: comment, markers: markers, use: name}
+			tbl := "T"
+			if r.Chance(1, 2) {
+				tbl = "GT"
+			}
 			var text string
 			switch kind {
+			case 4:
+				d.use = tbl + "." + name
+				if r.Chance(1, 2) {
+					text = "function " + tbl + "." + name + "(aa, bb)"
+				} else {
+					text = "function " + tbl + ":" + name + "(aa, bb)"
+				}
+				d.params = "aa, bb"
+			case 5:
+				d.use = tbl + "." + name
+				text = tbl + "." + name + " = 3"
 			case 0:
 				text = "local " + name + " = 1"
 				d.local = true
@@ -149,7 +175,7 @@ func runC13(res *lib.Result, tier string, seed int64, args []string) error {
 				text += " -- " + c1
 			}
 			lines = append(lines, text)
-			if kind >= 2 {
+			if kind >= 2 && kind != 5 {
 				lines = append(lines, "  return 1", "end")
 			}
 			if r.Chance(1, 2) {
@@ -159,12 +185,12 @@ func runC13(res *lib.Result, tier string, seed int64, args []string) error {
 		}
 		n := 2 + r.Intn(3)
 		for k := 0; k < n; k++ {
-			add(r.Intn(4))
+			add(r.Intn(6))
 		}
 		useLine := len(lines)
 		var uses []string
 		for _, d := range decls {
-			uses = append(uses, d.name)
+			uses = append(uses, d.use)
 		}
 		lines = append(lines, "print("+strings.Join(uses, ", ")+")")
 		src := strings.Join(lines, "\n") + "\n"
@@ -181,8 +207,8 @@ func runC13(res *lib.Result, tier string, seed int64, args []string) error {
 		for _, d := range decls {
 			caseText := fmt.Sprintf("hover at %d:%d (%s, script %s) in\n%s", useLine, col, d.name, script, src)
 			lib.Breadcrumb("C13 " + caseText)
-			hov, err := sess.Hover("main.lua", useLine, col)
-			col += len(d.name) + 2
+			hov, err := sess.Hover("main.lua", useLine, col+len(d.use)-len(d.name))
+			col += len(d.use) + 2
 			if err != nil {
 				res.AddViolation("crash-or-timeout", err.Error(), caseText, false)
 				continue
@@ -236,6 +262,11 @@ func runC13(res *lib.Result, tier string, seed int64, args []string) error {
 					if strings.Contains(hov, m) {
 						problems = append(problems, fmt.Sprintf("shows the comment of another declaration (%s)", o.name))
 					}
+				}
+			}
+			for _, m := range detached {
+				if strings.Contains(hov, m) {
+					problems = append(problems, "shows a comment that is separated from every declaration by a blank line ("+strings.TrimSpace(m)+")")
 				}
 			}
 			docOK := true
